@@ -68,9 +68,9 @@ Proof. exact stale_uid_powerless. Qed.
 (* ---- watches.  The full statement — for ALL schedules, restore included, a watch is given the full
    match set of some state at or before its open, end-of-snapshot, then exactly the matching commits
    that follow, in commit order, none twice, none skipped — is FALSE of the faithful model (and of the
-   code): after a restore, events of the previous epoch that are still queued, or still in a topic
-   buffer kept alive by an unreleased watch, reach new watches, and new commits are filtered out because
-   the restore resets the event index. *)
+   code): after a restore, batches of the previous epoch that are still queued in publishCh reach new
+   watches, and new commits are filtered out because the restore resets the event index.  (The second
+   way, a topic buffer kept alive by an unreleased watch, was repaired upstream of this check by 2bf672d.) *)
 Theorem C18_watch_complete_ordered_refuted :
   let st1 := after_restore pre_a in
   let ops := OWatch xq :: post_a in
@@ -91,8 +91,8 @@ Proof. exact skipped_event_after_restore. Qed.
 
 (* It holds — for ALL schedules of commits, publications, opens, nexts, closes and cache evictions,
    in particular for a watch opened while commits are queued but unpublished (the repaired finding 13) —
-   on every restore-free run from a clean state (the initial state, or the state after a restore once
-   the closed watches have been released and the queue drained):
+   on every restore-free run from a clean state (the initial state, or the state right after any restore
+   that found nothing queued, C18_restore_clean):
    the events watch n returned are a prefix of [ideal q T la] = the full match set of the table T
    at a snapshot point Lp that is a prefix of the commit log not later than the open, end-of-snapshot,
    then the matching commits after that point in commit order; and when nothing is queued and Next
@@ -147,7 +147,9 @@ Example C18_clean_init : clean init.
 Proof. exact clean_init. Qed.
 Example C18_vb_init : vb init /\ NoDup (keys (s_res init)).
 Proof. split; [exact init_vb|constructor]. Qed.
-Example C18_clean_after_restore : clean (run (after_restore pre_b) [OClose 0]).
+Theorem C18_restore_clean : forall st l, s_queue st = [] -> clean (fst (step st (ORestore l))).
+Proof. exact restore_clean. Qed.
+Example C18_clean_after_restore : clean (after_restore [OWatch xq; OWrite (xres [97] [117;49] 0 1); OPublish]).
 Proof. exact clean_after_restore. Qed.
 Example C18_gap_watch_delivers :
   deliv 0 init demo = [Upsert (xres [97] [117;49] 2 2); EndOfSnapshot; Upsert (xres [97] [117;49] 3 3)].
@@ -166,5 +168,6 @@ Print Assumptions C18_delivered_committed.
 Print Assumptions C18_read_after_event.
 Print Assumptions C18_clean_init.
 Print Assumptions C18_vb_init.
+Print Assumptions C18_restore_clean.
 Print Assumptions C18_clean_after_restore.
 Print Assumptions C18_gap_watch_delivers.
